@@ -17,7 +17,7 @@ use std::sync::atomic::{AtomicBool, AtomicUsize, Ordering};
 use std::sync::Arc;
 use std::time::Duration;
 
-pub const PROBE: u8 = 0; // kind: 0 none, 1 Blocker.park(1h)+unpark, 2 park_timeout(1h)+unpark, 3 sleep
+pub const PROBE: u8 = 0; // kind: 0 none, 1 Blocker.park(1h)+unpark, 2 park_timeout(1h)+unpark, 3 sleep, 4 socket read
 pub const GET: u8 = 1; // key
 pub const SET: u8 = 2; // key, value
 pub const YIELD: u8 = 3;
@@ -116,6 +116,9 @@ struct Shared {
     blockers: Vec<std::sync::Mutex<Option<Arc<Blocker>>>>,
     cos: Vec<std::sync::Mutex<Option<may::coroutine::Coroutine>>>,
     probe_done: Vec<AtomicBool>,
+    /// virtual time at which the final park_timeout of an actor expires (0 = not there yet)
+    deadline: Vec<std::sync::atomic::AtomicU64>,
+    socks: Vec<std::sync::Mutex<Option<may::os::unix::net::UnixStream>>>,
 }
 
 fn actor_body(sh: &Shared, states: &States, ai: usize, ops: &[Op], is_co: bool) -> i64 {
@@ -144,6 +147,18 @@ fn actor_body(sh: &Shared, states: &States, ai: usize, ops: &[Op], is_co: bool) 
                     2 => {
                         *sh.cos[ai].lock().unwrap() = Some(may::coroutine::current());
                         may::coroutine::park_timeout(Duration::from_secs(3600));
+                    }
+                    4 => {
+                        // the first blocking call is a socket read without time-out: a stale
+                        // time-out / cancel result would come back as its error
+                        use std::io::Read;
+                        let (mut a, b) = may::os::unix::net::UnixStream::pair().unwrap();
+                        *sh.socks[ai].lock().unwrap() = Some(b);
+                        let mut buf = [0u8; 1];
+                        match a.read(&mut buf) {
+                            Ok(1) => {}
+                            r => fail("fresh-coroutine-inherited-stale-result", format!("coroutine {ai}: first socket read returned {r:?}")),
+                        }
                     }
                     3 => {
                         let t0 = sched::now_ns();
@@ -197,6 +212,14 @@ fn actor_body(sh: &Shared, states: &States, ai: usize, ops: &[Op], is_co: bool) 
                 }
             }
             E_TIMEOUT => {
+                // op.2 == 1: somebody unparks us right at the deadline (the timer's result and
+                // the wake-up token arrive together; neither may be left behind for the next
+                // coroutine on this stack)
+                if op.2 >= 1 {
+                    *sh.cos[ai].lock().unwrap() = Some(may::coroutine::current());
+                    // (the park keeps its time-out in whole milliseconds, rounded up)
+                    sh.deadline[ai].store(sched::now_ns() + (op.1.max(1) as u64).div_ceil(1_000_000) * 1_000_000, Ordering::SeqCst);
+                }
                 may::coroutine::park_timeout(Duration::from_nanos(op.1.max(1) as u64));
                 return -3;
             }
@@ -222,6 +245,8 @@ pub fn run(case: &Case) -> Outcome {
         blockers: (0..n).map(|_| std::sync::Mutex::new(None)).collect(),
         cos: (0..n).map(|_| std::sync::Mutex::new(None)).collect(),
         probe_done: (0..n).map(|_| AtomicBool::new(false)).collect(),
+        deadline: (0..n).map(|_| std::sync::atomic::AtomicU64::new(0)).collect(),
+        socks: (0..n).map(|_| std::sync::Mutex::new(None)).collect(),
     });
     let desc: Vec<String> = case.actors.iter().map(|a| if a.role == 0 { "coroutine".to_string() } else { "thread".to_string() }).collect();
     let states = States::install(desc, opname);
@@ -240,6 +265,7 @@ pub fn run(case: &Case) -> Outcome {
         }
         prev_abnormal = false;
         let mut hs = vec![];
+        let mut keep_socks = vec![];
         for &ai in chunk {
             let (sh2, st2, ops) = (sh.clone(), states.clone(), case.actors[ai].ops.clone());
             hs.push((ai, unsafe { may::coroutine::spawn(move || actor_body(&sh2, &st2, ai, &ops, true)) }));
@@ -260,10 +286,34 @@ pub fn run(case: &Case) -> Outcome {
                     let c = sh.cos[ai].lock().unwrap().clone().unwrap();
                     c.unpark();
                 }
+            } else if probe == 4 && poll_until(|| sh.socks[ai].lock().unwrap().is_some() || sh.probe_done[ai].load(Ordering::SeqCst), 5_000_000_000) {
+                use std::io::Write;
+                sleep_ns(2_000);
+                if let Some(mut b) = sh.socks[ai].lock().unwrap().take() {
+                    let _ = b.write_all(b"x");
+                    sched::kick_idle();
+                    // (closed only after the byte: the reader must not see the end of the stream)
+                    keep_socks.push(b);
+                }
             }
         }
         for &ai in chunk {
             let ending = case.actors[ai].ops.last().map(|o| o.0).unwrap_or(E_RET);
+            if ending == E_TIMEOUT && case.actors[ai].ops.last().unwrap().2 >= 1 {
+                // unpark it at its deadline, give or take a few hundred ns
+                let reached = poll_until(|| sh.deadline[ai].load(Ordering::SeqCst) != 0, 5_000_000_000);
+                if reached {
+                    let at = sh.deadline[ai].load(Ordering::SeqCst) + case.actors[ai].ops.last().unwrap().2 as u64 - 1;
+                    let now = sched::now_ns();
+                    if at > now + 400 {
+                        sleep_ns(at - now - 400);
+                    }
+                    let c = sh.cos[ai].lock().unwrap().clone();
+                    if let Some(c) = c {
+                        c.unpark();
+                    }
+                }
+            }
             if ending == E_CANCELLED {
                 // wait until it has reached its final park, then cancel it
                 let reached = poll_until(
@@ -359,10 +409,10 @@ pub fn strategy(g: &GenCfg) -> BoxedStrategy<Case> {
         4 => (0u32..1000).prop_map(|v| Op(E_RET, v, 0)),
         2 => Just(Op(E_PANIC, 0, 0)),
         2 => (0u32..20_000, 0u32..2).prop_map(|(d, y)| Op(E_CANCELLED, d, y)),
-        2 => (1u32..2_000_000).prop_map(|d| Op(E_TIMEOUT, d, 0)),
+        2 => (1u32..2_000_000, prop_oneof![1 => Just(0u32), 2 => 1u32..12_000]).prop_map(|(d, r)| Op(E_TIMEOUT, d, r)),
         2 => (1u32..2_000_000).prop_map(|d| Op(E_BLOCKER_TIMEOUT, d, 0)),
     ];
-    let co = (prop_oneof![1 => Just(0u32), 3 => Just(1u32), 2 => Just(2u32), 2 => Just(3u32)], 1u32..400_000, proptest::collection::vec(step.clone(), 0..6), ending).prop_map(|(probe, d, steps, e)| {
+    let co = (prop_oneof![1 => Just(0u32), 3 => Just(1u32), 2 => Just(2u32), 2 => Just(3u32), 2 => Just(4u32)], 1u32..400_000, proptest::collection::vec(step.clone(), 0..6), ending).prop_map(|(probe, d, steps, e)| {
         let mut ops = vec![Op(PROBE, probe, d)];
         ops.extend(steps);
         ops.push(e);
